@@ -633,6 +633,8 @@ func (s *Session) command(raw []byte) []byte {
 		}
 		if s.txn != 0 {
 			s.illegal("mail-in-open-transaction", ev.Pos(), "MAIL while the transaction opened by %q is still open (no RSET / end-of-data since)", s.fromRaw)
+			// RFC 5321 4.1.4 / Postfix: nested MAIL is refused and the open transaction stays as it is
+			return s.answer(ev, Action{Kind: ActReply, Code: 503, Text: []string{"5.5.1 nested MAIL command"}})
 		}
 		if len(arg) < 5 || !strings.EqualFold(arg[:5], "FROM:") {
 			s.illegal("mail-syntax", ev.Pos(), "MAIL line %q is not 'MAIL FROM:<path>'", clip(line))
@@ -810,3 +812,12 @@ func (s *Session) TLSFailed() { s.awaitTLS = false; s.Closed = true }
 type junkAuth struct{}
 
 func (junkAuth) Step([]byte) ([]byte, bool, bool) { return nil, true, false }
+
+// InData reports whether the server is receiving message content, and how many content bytes arrived so far.
+func (s *Session) InData() (bool, int) { return s.txn == 2, len(s.data) + len(s.inbuf) }
+
+// CurTxn is the index of the current / latest transaction (number of MAIL commands seen).
+func (s *Session) CurTxn() int { return s.txnIdx }
+
+// FromRaw is the reverse-path text of the current transaction's MAIL command.
+func (s *Session) FromRaw() string { return s.fromRaw }
